@@ -76,6 +76,7 @@ class Obs:
         self.world = None
         self.frozen = False
         self.notes: list = []
+        self.delivered: list = []   # "open_completed" / "closed_client" / "closed_server" events that reached the layers
         self.client = None
         self.server = None
         self.seq = 0
@@ -170,6 +171,17 @@ def run(sc, *, keep_log=False) -> Obs:
                           "server_connect_error"):
                 obs.ev("hook", name)
         w.hook_listeners.append(on_hook)
+
+        def on_event(handler, event):
+            # which events actually reached the layer stack (for violation keys only)
+            if obs.frozen:
+                return
+            n = type(event).__name__
+            if n == "OpenConnectionCompleted":
+                obs.delivered.append("open_completed")
+            elif n == "ConnectionClosed":
+                obs.delivered.append("closed_" + ("client" if event.connection is handler.client else "server"))
+        w.event_listeners.append(on_event)
 
         def on_write(conn, data):
             obs.ev("write", conn.kind, bytes(data))
